@@ -366,7 +366,8 @@ class Ctx:
     def write_evidence(self, level="model_checking", explanation=None, technique=None):
         self.finish_records()
         import z3
-        os.makedirs(os.path.join(VERIF, "evidence"), exist_ok=True)
+        evdir = os.path.join(VERIF, "evidence") if REPO == "/repo" else os.path.join(VERIF, "scratch", "evidence_alt_repo")
+        os.makedirs(evdir, exist_ok=True)
         files = {}
         for f in self.files:
             p = os.path.join(REPO, f)
@@ -392,7 +393,7 @@ class Ctx:
         ev = dict(property_id=self.prop, tier=self.tier, seed=self.seed, level=level, coverage=cov,
                   assumptions=self.assumptions, wall_s=round(time.time() - self.t0, 2),
                   violations=len(self.violations))
-        path = os.path.join(VERIF, "evidence", "%s.json" % self.prop)
+        path = os.path.join(evdir, "%s.json" % self.prop)
         tmp = path + ".tmp"
         with open(tmp, "w") as f:
             json.dump(ev, f, indent=1, default=str)
